@@ -7433,6 +7433,12 @@ func (l *Lowerer) lowerCall(call *parser.CallExpr, target *[]ir.Statement) (ir.E
 	isStatement := l.isStatement
 	l.isStatement = false
 
+	// A function declared in the module shadows a predeclared function of the
+	// same name (fn step(..), fn min(..)).
+	if _, isUser := l.functions[funcName]; isUser {
+		return l.lowerUserFunctionCall(call, isStatement, target)
+	}
+
 	// Built-ins without a result are statements only; as a value they would
 	// be represented by expression handle 0.
 	if !isStatement {
@@ -7554,6 +7560,13 @@ func (l *Lowerer) lowerCall(call *parser.CallExpr, target *[]ir.Statement) (ir.E
 	if typeExists {
 		return l.lowerTypeConstructorCall(typeHandle, call.Args, target)
 	}
+
+	return l.lowerUserFunctionCall(call, isStatement, target)
+}
+
+// lowerUserFunctionCall lowers a call to a function declared in the module.
+func (l *Lowerer) lowerUserFunctionCall(call *parser.CallExpr, isStatement bool, target *[]ir.Statement) (ir.ExpressionHandle, error) {
+	funcName := call.Func.Name
 
 	// Regular function call - look up function handle
 	funcHandle, ok := l.functions[funcName]
